@@ -460,6 +460,21 @@ func c05Run(r *Run) {
 				}
 				return true
 			})
+			// the address of a named result handed to a helper (convertPanic(r, &c)) reaches the result too
+			ast.Inspect(lit.Body, func(m ast.Node) bool {
+				if ue, ok := m.(*ast.UnaryExpr); ok && ue.Op == token.AND {
+					if id, ok := ast.Unparen(ue.X).(*ast.Ident); ok {
+						if o := info.Uses[id]; o != nil && isNamed(o.Type(), modPath+"/data", "Control") {
+							if results[o] {
+								toResult = true
+							} else if v, ok := o.(*types.Var); ok && v.Pos() >= fd.Pos() && v.Pos() < lit.Pos() && toLocal == token.NoPos {
+								toLocal = ue.Pos()
+							}
+						}
+					}
+				}
+				return true
+			})
 			key := funcKey(npkg, fd) + "#panic-becomes-control"
 			switch {
 			case toResult:
